@@ -52,6 +52,7 @@ def run(ctx):
     ctx.not_decided = "liveness: the other peer still receives all changes; catch-up after switching back to read-write. AutoCommit's wrapper closes the user's own pending transaction before receiving (local ops, not incoming changes)."
     ctx.rule("R2-guard", "mutation points of the document in the receive path are edge-dominated by a switch on (*sync_state).read_only taking the false edge")
     ctx.rule("R2-delegate", "other receive implementations mutate the document only by delegating to a function of the receive chain")
+    ctx.rule("R2-flag", "who-may-write: State.read_only is assigned (field write, whole-struct overwrite or construction) only inside State's own impl blocks")
     ctx.rule("R2-gen", "generate_sync_message takes the document by shared reference; no interior mutability inside Automerge")
     f = ctx.facts()
     tr = f.traits.get(TRAIT)
@@ -88,6 +89,32 @@ def run(ctx):
         ctx.analysed_fns.add(r["path"])
         cap_mut = any(ty.startswith("&mut ") and util.base_ty(ty) == DOC for ty in [l["ty"] for l in cb.locals])
         ctx.ob("R2-guard", "%s|closure" % norm_fn(r["path"]), not cap_mut, r["sp"], "closure in the receive path must not hold &mut Automerge")
+
+    # --- the flag itself: only State's own methods may write `read_only` (or overwrite a whole State)
+    writers = []
+    for p, r in f.fns.items():
+        if r["ckey"] != ("automerge", "lib"):
+            continue
+        wb = None
+        for bi, blk in enumerate(r["blocks"]):
+            for s in blk["st"]:
+                d = s["d"]
+                hit = None
+                if d["p"] and d["p"][-1] == ".read_only":
+                    wb = wb or cfg.body(r)
+                    o = wb.origin(d["l"], tuple(d["p"]))
+                    hit = "write to %s" % wb.origin_str(o)
+                elif d["p"] == ["*"] and util.base_ty(r["locals"][d["l"]]["ty"]) == STATE:
+                    hit = "whole sync State overwritten"
+                elif s["rv"]["k"] == "Agg" and s["rv"].get("adt") == STATE:
+                    hit = "constructs a State"
+                if hit:
+                    writers.append((p, hit, s["sp"]))
+    ctx.floor("writers/constructors of sync::State.read_only", len(writers), 3)
+    for k, (p, hit, sp) in util.ordinal_keys(writers, lambda w: "%s|%s" % (norm_fn(w[0]), w[1])):
+        r = f.fns[p]
+        own = r.get("container") == STATE or (r.get("container") or "").startswith("<" + STATE + " as ") or norm_fn(p).startswith(STATE + "::")
+        ctx.ob("R2-flag", k, own, sp, "only State's own methods may set or reset the read-only flag" if own else "%s outside State's own methods: the receive/generate path could flip read-only mode" % hit)
 
     # --- other receive implementations: delegation only
     chain = {INNER}
